@@ -417,6 +417,10 @@ impl SimulatorArgs {
     }
 }
 
+/// Upper bound on the number of events to reserve memory for up front in
+/// [`sim_advanced`]; longer traces grow the vector as needed.
+const MAX_TRACE_PREALLOC: usize = 1 << 20;
+
 /// Like [`sim`], but allows to (i) set the maximum padding and blocking
 /// fractions for the client and server, (ii) specify the maximum number of
 /// iterations to run the simulator for, and (iii) only returning client events.
@@ -433,7 +437,9 @@ pub fn sim_advanced(
         // a rough estimate of the number of events in the trace
         sq.len() * 2
     };
-    let mut trace: Vec<SimEvent> = Vec::with_capacity(expected_trace_len);
+    // only a capacity hint: a huge max_trace_length (say usize::MAX for "no
+    // limit") must not make this allocation overflow or fail
+    let mut trace: Vec<SimEvent> = Vec::with_capacity(expected_trace_len.min(MAX_TRACE_PREALLOC));
 
     // put the mocked current time at the first event
     let mut current_time = sq.get_first_time().unwrap();
